@@ -249,4 +249,29 @@ def run_case(case):
     return ok(nontrivial, sorted(set(classes)), summary)
 
 
-PARTS = [Part('join_sets', run_case, strategy=case_strategy, examples={'quick': 400, 'thorough': 8000})]
+def run_low(case):
+    """Receiver-API level: a join of 2-3 bare publishers (forwarded or own ids), recv() calls lasting up to seconds, a publisher that closes
+    cleanly or is killed and comes back while the join holds the other source's set."""
+    from props import lowcommon
+    out, sets = lowcommon.run(case)
+    classes = lowcommon.classes_of(case, out)
+    if out['raised']:
+        return bad(f'{out["raised"][0][0]} raised {out["raised"][0][1]}', f'lowlevel-raised:{out["raised"][0][1].split(":")[0]}', classes)
+    v = lowcommon.same_id_and_complete(case, out, sets)
+    if v:
+        return bad(v[0], v[1] if v[1] == 'mixed-incarnations' else 'lowlevel:' + v[1], classes)
+    for st_ in sets:      # the id a set is reported as is the id its frames were published under
+        for f in st_['frames']:
+            if f.get('wire_mid') is not None and f['wire_mid'] != st_['mid']:
+                return bad(f'set reported as id {st_["mid"]} holds {f["uid"]}, published under id {f["wire_mid"]}', 'lowlevel:set-carries-other-id', classes)
+    return ok(len(sets) >= 5 and len(case['pubs']) >= 2 and (out['restarts'] > 0 or any(p.get('skip') for p in case['pubs'])), classes,
+              {'sets': len(sets), 'restarts': out['restarts']})
+
+
+def low_strategy(tier):
+    from simnet import lowlevel
+    return lowlevel.low_case(tier, balance=False, max_pubs=3)
+
+
+PARTS = [Part('join_sets', run_case, strategy=case_strategy, examples={'quick': 400, 'thorough': 8000}, share=0.75),
+         Part('receiver_api', run_low, strategy=low_strategy, examples={'quick': 120, 'thorough': 3000}, share=0.25)]
